@@ -198,7 +198,7 @@ def genLoopR (keep : Bool) (mask : Nat) (fixed : Bool) (raw : Option Bytes) (sp 
     match scanSeg lastLine todo with
     | .error off => .error (.base .lineOrder, off)
     | .ok (seg, ll, rest) =>
-      let r := insertSliced mask fixed pLeft 0 0 seg
+      let r := insertSliced mask fixed pLeft (segStart lastLine) 0 seg
       match r.err with
       | some e => .error (.base e, r.rest ++ rest)
       | none =>
